@@ -16,44 +16,89 @@ theorem sinv_init (cfg : Cfg) (bc : Nat) (progs : List (List Op)) (hbc : BcOk bc
     subst hp
     simp [TInvSO]
 
+/-- the invariant survives any step whose outcome satisfies `StepOk` -/
+theorem sinv_of_stepok {cfg : Cfg} {s : St} {t : Tid} {th : Th} {o : Out} (h : SInv cfg s) (hth : s.ths[t]? = some th)
+    (so : StepOk cfg s t o) : SInv cfg (applyOut s t o) := by
+  unfold applyOut
+  refine ⟨good_apply h.good so.act, so.table, so.bc, ?_, ?_, ?_, contig_apply h.good h.contig so.act⟩
+  · intro u thu hu
+    simp only at hu
+    rw [List.getElem?_set] at hu
+    by_cases hut : t = u
+    · subst hut
+      have hlt : t < s.ths.length := by
+        rcases List.getElem?_eq_some_iff.mp hth with ⟨hl, _⟩; exact hl
+      simp only [hlt, ite_true, Option.some.injEq] at hu
+      subst hu
+      exact so.tinv
+    · simp only [hut, ite_false] at hu
+      exact tinvso_stable h.good so.act (Ne.symm hut) so.slotmono (h.tinv u thu hu)
+  · intro e he
+    simp only at he
+    cases hres : o.res with
+    | none =>
+      rw [hres] at he
+      exact resok_stable h.good so.act (h.logok e he)
+    | some r =>
+      rw [hres] at he
+      simp only [addLog, List.mem_cons] at he
+      rcases he with he | he
+      · subst he; exact so.res r hres
+      · exact resok_stable h.good so.act (h.logok e he)
+  · simp only
+    rw [so.wins, h.wins]
+    cases hres : o.res with
+    | none => simp [addLog]
+    | some r => simp only [addLog]; rw [← List.filterMap_append]; rfl
+
+variable {cfg : Cfg} {s : St} {t : Tid} {th : Th}
+
+/-- the fault bookkeeping fields are invisible to the per-thread invariant -/
+theorem tinvso_fields {L : LSt} {slot : Nat → Option Node} (th : Th) (a b d : Nat) :
+    TInvSO cfg L slot t { th with fk := a, fn := b, calls := d } ↔ TInvSO cfg L slot t th := Iff.rfl
+
+theorem tinvso_disarm {L : LSt} {slot : Nat → Option Node} (th : Th) :
+    TInvSO cfg L slot t th.disarm ↔ TInvSO cfg L slot t th := Iff.rfl
+
+/-- an outcome that differs from a good one only in the allocator ledger and the stepping thread's fault fields -/
+theorem stepok_of {o o' : Out} (so : StepOk cfg s t o) (hact : o'.act = o.act) (hslot : o'.slot = o.slot) (hbc : o'.bc = o.bc)
+    (hres : o'.res = o.res) (ht : TInvSO cfg (s.L.apply o.act) (newSlot s o) t o'.th) : StepOk cfg s t o' := by
+  have hns : newSlot s o' = newSlot s o := by simp [newSlot, hslot]
+  exact ⟨by rw [hact]; exact so.act, by rw [hact, hns]; exact ht, by rw [hns]; exact so.slotmono,
+    by rw [hact, hns]; exact so.table, by rw [hbc]; exact so.bc, by rw [hact, hres]; exact so.res,
+    by rw [hact, hres]; exact so.wins⟩
+
+theorem so_step_ok_throw (hI : SInv cfg s) (h : TInvSO cfg s.L s.slot t th) : StepOk cfg s t (thStep cfg s t th) := by
+  have so := so_step_ok hI h
+  unfold thStep
+  split
+  · exact stepok_local hI rfl rfl rfl (by simp) (by simp [TInvSO, Th.finish])
+  · simp only
+    split
+    · split
+      · refine stepok_local hI rfl rfl rfl ?_ (by simp [TInvSO, Th.finish, Th.disarm])
+        intro r hr
+        simp only [Option.some.injEq] at hr
+        subst hr; exact ⟨trivial, rfl⟩
+      · split
+        · exact stepok_of so rfl rfl rfl rfl ((tinvso_disarm _).mpr so.tinv)
+        · exact so
+    · split
+      · refine stepok_local hI rfl rfl rfl ?_ (by simp [TInvSO, Th.finish, Th.disarm])
+        intro r hr
+        simp only [Option.some.injEq] at hr
+        subst hr; exact ⟨trivial, rfl⟩
+      · refine stepok_of so rfl rfl rfl rfl ?_
+        simp only [Th.after]
+        split
+        · exact (tinvso_disarm _).mpr so.tinv
+        · exact (tinvso_fields _ _ _ _).mpr so.tinv
+
 theorem sinv_step (cfg : Cfg) (s : St) (t : Tid) (h : SInv cfg s) : SInv cfg (step cfg s t) := by
   unfold step
   cases hth : s.ths[t]? with
   | none => simpa using h
-  | some th =>
-    simp only
-    have so := so_step_ok h (h.tinv t th hth)
-    unfold applyOut
-    refine ⟨good_apply h.good so.act, so.table, so.bc, ?_, ?_, ?_, contig_apply h.good h.contig so.act⟩
-    · intro u thu hu
-      simp only at hu
-      rw [List.getElem?_set] at hu
-      by_cases hut : t = u
-      · subst hut
-        have hlt : t < s.ths.length := by
-          rcases List.getElem?_eq_some_iff.mp hth with ⟨hl, _⟩; exact hl
-        simp only [hlt, ite_true, Option.some.injEq] at hu
-        subst hu
-        exact so.tinv
-      · simp only [hut, ite_false] at hu
-        exact tinvso_stable h.good so.act (Ne.symm hut) so.slotmono (h.tinv u thu hu)
-    · intro e he
-      simp only at he
-      cases hres : (thStep cfg s t th).res with
-      | none =>
-        rw [hres] at he
-        exact resok_stable h.good so.act (h.logok e he)
-      | some r =>
-        rw [hres] at he
-        simp only [addLog, List.mem_cons] at he
-        rcases he with he | he
-        · subst he; exact so.res r hres
-        · exact resok_stable h.good so.act (h.logok e he)
-    · simp only
-      rw [so.wins, h.wins]
-      cases hres : (thStep cfg s t th).res with
-      | none => simp [addLog]
-      | some r => simp only [addLog]; rw [← List.filterMap_append]; rfl
+  | some th => exact sinv_of_stepok h hth (so_step_ok_throw h (h.tinv t th hth))
 
 theorem sinv_reachable (cfg : Cfg) (bc : Nat) (progs : List (List Op)) (hbc : BcOk bc) (sched : List Tid) :
     SInv cfg ((sys cfg bc progs).run sched) :=
